@@ -153,12 +153,6 @@ Definition P_C10_gen (assemble : list part -> option text) (c : ccase) : bool :=
 
 Definition P_C10 : ccase -> bool := P_C10_gen assemble_in_order.
 
-(** Known finding KF-C10-1 (stdin parts written through the descriptor overtake the buffered ones): would the
-    observed behaviour satisfy the statement if ONLY the order of the stdin parts were as the code produces it?
-    Used by the harness to decide whether a failure of [P_C10] is explained by that finding and nothing else. *)
-Definition P_C10_kf1 : ccase -> bool := P_C10_gen assemble_buffered.
-Definition check_case_kf1 (c : ccase) : bool * bool := (true, P_C10_kf1 c).
-
 Definition check_case (c : ccase) : bool * bool :=
   ( match run_case (cc_fuel c) (cc_cwd c) (cc_tbl0 c) (cc_case c) (cc_oracle c) with
     | Ok r => result_matches r (cc_obs c)
